@@ -284,6 +284,54 @@ def arm_context(b, x, dom=None):
                 if v not in vs:
                     vs.append(v)
         ctx.append((info[0].split('::')[-1], vs))
+    # `matches!(e, pat)` / `if let` lowered through a bool: the arms of an enum switch assign a constant to one bool local and
+    # rejoin at a switch on that local; x behind one edge of the bool switch is in the arms that assigned that truth value
+    for jn in sorted(dom[x]):
+        if jn == x:
+            continue
+        t = b.blocks[jn]['t']
+        if t['k'] != 'switch' or t.get('ty') != 'bool' or 'l' not in t['o'] or t['o']['pr']:
+            continue
+        succs = sorted(set(j for j, _ in b.succ(jn)))
+        through = [j for j in succs if j == x or x in b.reach_from([j], removed=frozenset([jn]))]
+        if len(through) != 1 or len(succs) != 2:
+            continue
+        truth = 0 if any(v == 0 and bb == through[0] for v, bb in t['targets']) else 1
+        L = t['o']['l']
+        assigns = []
+        okdefs = True
+        for bi, blk in enumerate(b.blocks):
+            for s_ in blk['s']:
+                if s_['d']['l'] == L and not s_['d']['pr']:
+                    o = s_['r'].get('o', [{}])[0] if s_['r']['k'] == 'use' else None
+                    if o is None or 'k' not in o or o['k'].get('ty') != 'bool':
+                        okdefs = False
+                    else:
+                        assigns.append((bi, 1 if o['k'].get('v') else 0))
+            tt = blk['t']
+            if tt['k'] == 'call' and tt['d']['l'] == L and not tt['d']['pr']:
+                okdefs = False
+        if not okdefs or len(assigns) < 2:
+            continue
+        preds = b.preds()
+        sw = set()
+        for bi, _ in assigns:
+            ps_ = preds.get(bi, []) if isinstance(preds, dict) else preds[bi]
+            sw |= set(ps_)
+        if len(sw) != 1:
+            continue
+        i = next(iter(sw))
+        info = enum_switch_info(b, i)
+        if info is None or i not in dom[x]:
+            continue
+        vs = []
+        for bi, tv in assigns:
+            if tv == truth:
+                for v in edge_variants(b, i, bi) or []:
+                    if v not in vs:
+                        vs.append(v)
+        if vs and not any(a == info[0].split('::')[-1] and set(v0) == set(vs) for a, v0 in ctx):
+            ctx.append((info[0].split('::')[-1], vs))
     return ctx
     for i in sorted(dom[x]):
         if i == x:
